@@ -285,6 +285,88 @@ func c18Select(p *an.Prog, r *an.R) {
 	})
 	r.Floor("C18.R1.replacements", 2, nRepl)
 	r.Floor("C18.R1.rewrites", 2, nStore)
+	// R10: the (any, all) accumulator visits every repository of the shard
+	r.Rule("C18.R10", "the loop that computes (any, all) over a shard's repositories has no early exit, except under a condition that implies all == false")
+	nAcc := 0
+	ast.Inspect(d.Decl.Body, func(nd ast.Node) bool {
+		fl, ok := nd.(*ast.FuncLit)
+		if !ok || fl.Type.Results == nil {
+			return true
+		}
+		// two named bool results
+		var names []*ast.Ident
+		for _, f := range fl.Type.Results.List {
+			names = append(names, f.Names...)
+		}
+		if len(names) != 2 {
+			return true
+		}
+		for _, nm := range names {
+			if b, ok := info.TypeOf(nm).Underlying().(*types.Basic); !ok || b.Kind() != types.Bool {
+				return true
+			}
+		}
+		allObj := info.ObjectOf(names[1])
+		var stack []ast.Node
+		ast.Inspect(fl.Body, func(m ast.Node) bool {
+			if m == nil {
+				stack = stack[:len(stack)-1]
+				return true
+			}
+			stack = append(stack, m)
+			rs, ok := m.(*ast.RangeStmt)
+			if !ok {
+				return true
+			}
+			nAcc++
+			okLoop := true
+			var inner []ast.Node
+			ast.Inspect(rs.Body, func(k ast.Node) bool {
+				if k == nil {
+					inner = inner[:len(inner)-1]
+					return true
+				}
+				inner = append(inner, k)
+				var isExit bool
+				switch x := k.(type) {
+				case *ast.BranchStmt:
+					isExit = x.Tok == token.BREAK || x.Tok == token.GOTO
+				case *ast.ReturnStmt:
+					isExit = true
+				}
+				if !isExit {
+					return true
+				}
+				justified := false
+				for i := len(inner) - 2; i >= 0; i-- {
+					is, ok := inner[i].(*ast.IfStmt)
+					if !ok {
+						continue
+					}
+					truth := inner[i+1] == ast.Node(is.Body)
+					if an.Implied(is.Cond, truth, func(atom ast.Expr, t bool) bool {
+						if isIdentOf(info, atom, allObj) {
+							return !t
+						}
+						if u, ok := ast.Unparen(atom).(*ast.UnaryExpr); ok && u.Op == token.NOT && isIdentOf(info, u.X, allObj) {
+							return t
+						}
+						return false
+					}) {
+						justified = true
+					}
+				}
+				if !justified {
+					okLoop = false
+				}
+				return true
+			})
+			r.Check(okLoop, "C18.R10", "search.doSelectRepoSet/any-all-accumulator/visits-every-repository", rs.Pos(), "`all` is the conjunction over every repository of the shard", "the loop that computes (any, all) can stop before every repository of the shard was tested while `all` may still be true: a compound shard whose later repositories do not satisfy the filter is reported as all-matching and the filter is rewritten away")
+			return true
+		})
+		return true
+	})
+	r.Floor("C18.R10.accumulators", 1, nAcc)
 	// R9: the callers take the shard list and the query together
 	r.Rule("C18.R9", "every caller of selectRepoSet/doSelectRepoSet takes both results (the rewritten query is only valid for the selected shards)")
 	targets := []*types.Func{f, p.Func("search", "selectRepoSet")}
